@@ -80,7 +80,9 @@ Section KT.
         apply bind_inv in Hev as [(t1 & x & Hx & Hk)|(x & Hx & Ho)]; [|discriminate]. inv Hk. reflexivity.
       + (* UTypeof *)
         destruct e; try (apply bind_inv in Hev as [(t1 & x & Hx & Hk)|(x & Hx & Ho)]; [inv Hk; reflexivity | discriminate]).
-        destruct (w_unbound W ref); [destruct (w_genv W ref)|]; inv Hev; reflexivity.
+        destruct wasTypeofId.
+        * destruct (w_unbound W ref); [destruct (w_genv W ref)|]; inv Hev; reflexivity.
+        * apply bind_inv in Hev as [(t1 & x & Hx & Hk)|(x & Hx & Ho)]; [inv Hk; reflexivity | discriminate].
     - (* EBin *)
       cbn [eval] in Hev.
       destruct op; cbn [is_sem_binop] in Hev; try discriminate; cbn [type_ok];
